@@ -117,7 +117,7 @@ func c09Shard(t Tier, shard, n int) (run *report.Run) {
 		maxLen = 3
 		extras = 2
 	}
-	dl := deadline(t, 100*time.Second, 20*time.Minute)
+	dl := deadline(t, 140*time.Second, 20*time.Minute)
 	cases := buildShard(e, maxLen, shard, n)
 	cases = append(cases, upgradeCases(e, shard, n)...) // histories containing an in-process software upgrade
 	cases = append(cases, longCases(e, shard, n)...)
